@@ -67,8 +67,8 @@ func (vc *VC) smtText(o *Obligation) string {
 			continue // recorded on a path that cannot lead to this obligation
 		}
 		if it.obl != nil {
-			if it.obl.Canary {
-				continue
+			if it.obl.Canary || o.Canary {
+				continue // a vacuity canary tests the assumptions only, never unproved obligations
 			}
 			if strings.HasSuffix(it.obl.Kind, ".established") && it.blk != o.blk {
 				continue // subsumed by the invariant assumed at the loop head
